@@ -1,6 +1,6 @@
 (** C02 - operators group exactly by the documented precedence and associativity.
     Part 1 (generated facts, re-checked on every run): the built-in table dumped from the impl IS the documented table. *)
-From EE Require Import Chars OpTable Names Token Ast Parser ParserSteps GroupingSmall ImplTable DocTable.
+From EE Require Import Chars OpTable Names Token Ast Parser ParserSteps GroupingSmall PrattRoundTrip ImplTable DocTable.
 Open Scope N_scope.
 
 (* every row of README.md's BinaryExpression table is registered with that precedence; every registered infix operator is a
@@ -79,3 +79,25 @@ Theorem C02_builtins_wf :
   is_postfix builtin_table s_qmark = false /\ is_postfix builtin_table s_colon = false /\ is_postfix builtin_table s_not = false.
 Proof. vm_compute. repeat split. Qed.
 Print Assumptions C02_builtins_wf.
+
+(* THE GROUPING THEOREM (infix fragment): for an arbitrary operator table and every tree of names, literals and infix
+   operators - of any size and shape within the parser's depth limit - writing the tree down with parentheses exactly where
+   the documented rule demands them (left operand: unless every operator on its right spine has r_bp above the parent's l_bp;
+   right operand: unless every operator on its left spine has l_bp above the parent's r_bp) and parsing the tokens gives
+   back that very tree. So the binding powers 2p / 2p+1 / 2p-1 of the documented precedence p and associativity decide every
+   grouping, not only those of two- or three-operator samples. *)
+Theorem C02_round_trip : forall tbl t, frag tbl t = true -> hgt t -> room tbl 0 t ->
+  parse_tokens tbl TmEof (unparse tbl t) = Ok t.
+Proof. exact parse_unparse. Qed.
+Print Assumptions C02_round_trip.
+
+(* the premises are met by real trees over the built-in table: 1 + 2 * 3 - 4 and (1 + 2) * 3 *)
+Example C02_round_trip_example :
+  let one := ARef [49] in
+  let t1 := ABinary n_sub (ABinary n_add one (ABinary n_mul one one)) one in
+  let t2 := ABinary n_mul (ABinary n_add one one) one in
+  frag builtin_table t1 = true /\ frag builtin_table t2 = true /\ need builtin_table t1 = 3 /\
+  unparse builtin_table t2 = [TDelim DLParen; TRef [49]; TOp n_add; TRef [49]; TDelim DRParen; TOp n_mul; TRef [49]] /\
+  parse_tokens builtin_table TmEof (unparse builtin_table t1) = Ok t1.
+Proof. vm_compute. repeat split. Qed.
+Print Assumptions C02_round_trip_example.
